@@ -1,12 +1,16 @@
 --------------------------- MODULE Trace_Fe9Pack ---------------------------
-(* Impl -> spec for C15.  Every event is one run of mila on a seeded random ordered map:
-     [mode, value, ser, bytes, parsed]
+(* Impl -> spec for C15.  Every event is one image built by mila from an ordered map (a generated value of
+   MC_Fe9Pack or a seeded random map):
+     [mode, src, value, ser, bytes, parsed]
    value  = the map as sequence of <<name bytes, body bytes>>,
    bytes  = fe9_arc::serialize(value)   (ser = "ok", anything else = error / panic text),
    parsed = projection of fe9_arc::parse(bytes): [ok, v].
-   TLC is the independent reader of the statement: the image must be well formed
-   (count, addresses, sizes inside the file, bodies 32-aligned), the reference parse of the
-   image must be the value, and mila's own parse must be the value (order included).
+   TLC is the independent reader of the statement, and these are ALL the conditions an image built by the
+   code has to meet: well formed (every recorded name terminated inside the file, every body inside the file
+   and starting on a 32-byte boundary), count / names / offsets / sizes exact, the reference parse of the
+   image is the value in order, and mila's own parse is the value.  Where the names sit, how they are padded
+   and whether the file ends on a 32-byte boundary are deliberately not constrained (CanonPack is one such
+   image, not the only one).
    mode "sampled" (available for very large cases) checks the structure of every entry but
    compares names/bodies only for a sample of entries; the 65 535-file case is cheap enough
    (about 15 s) to be validated in full. *)
